@@ -22,7 +22,7 @@ def parseObs (kv : List (String × String)) : Option Obs := do
 
 def parseProcObs (kv : List (String × String)) : Option ProcObs := do
   pure { rc := getS kv "rc", total := ← getN? kv "total", fired := ← getN? kv "fired", disc := ← getN? kv "disc",
-         bad := ← getN? kv "bad", served := ← getN? kv "served" }
+         bad := ← getN? kv "bad", served := ← getN? kv "served", minDisc := ← getN? kv "mindisc" }
 
 /-- duration of `once:N` / `const:OPS:MS` / `line:FROM:TO:MS` / `step:FROM:TO:STEP:MS` (MS per step) joined by `+`, ns -/
 def profDur (p : String) : Option Int :=
